@@ -65,7 +65,7 @@ func init() {
 	})
 	register(&Property{
 		ID: "C19",
-		Explanation: "Decides the guards around existing files: (create-file) createFile reports success only through ensureSize (size is made right: truncate / sparse truncate), and an existing object is reused only on the IsRegular()==true and Links<=1 edges — otherwise it is removed and re-created with O_EXCL; (sparse-off-for-existing) in restoreFiles every path on which sparse writing may have been enabled for a file that already existed (file.state != nil) passes `file.sparse = false` before the iteration ends, and that store happens only for existing files; (overwrite-exhaustive) shouldOverwrite, evaluated for each OverwriteBehavior constant: always/if-changed never look at the existing file and never reach the 'unknown overwrite behavior' panic, if-newer/never examine it and are handled, never yields true only for ErrNotExist; the restore callback of withOverwriteCheck runs only on shouldOverwrite==true without error; (reuse-only-if-file-survives) verifyFile hands out a file state (the list of blobs already present, which the restorer then skips) only for regular files, and a state that still needs a restore only for targets with a single hard link — createFile replaces a target with several links by a new empty file, so reusing matches there leaves zeros where the skipped blobs belong; this is the genuine defect found with the seeded-change probe for this property, now fixed. Not decided: equality of content and size after restore (runtime values).",
+		Explanation: "Decides the guards around existing files: (create-file) createFile reports success only through ensureSize (size is made right: truncate / sparse truncate), and an existing object is reused only on the IsRegular()==true and Links<=1 edges — otherwise it is removed and re-created with O_EXCL; (sparse-off-for-existing) in restoreFiles every path on which sparse writing may have been enabled for a file that already existed (file.state != nil) passes `file.sparse = false` before the iteration ends, and that store happens only for existing files; (overwrite-exhaustive) shouldOverwrite, evaluated for each OverwriteBehavior constant: always/if-changed never look at the existing file and never reach the 'unknown overwrite behavior' panic, if-newer/never examine it and are handled, never yields true only for ErrNotExist; the restore callback of withOverwriteCheck runs only on shouldOverwrite==true without error; (reuse-only-if-file-survives) verifyFile hands out a file state (the list of blobs already present, which the restorer then skips) only for regular files, and a state that still needs a restore only for targets with a single hard link — createFile replaces a target with several links by a new empty file, so reusing matches there leaves zeros where the skipped blobs belong; this is the genuine defect found with the seeded-change probe for this property, now fixed; (verify-reads-whole-blob) in verifyFile the hash is taken of the buffer ReadAt filled and only behind ReadAt's nil-error edge (the scratch buffer is reused between blobs and files, a short read leaves stale bytes in it), and the per-blob verdict stored is id.Equal(that hash) (added after a seeded change that hashed before the short-read test); (examined-or-nothing-reused) after a verifyFile error other than 'does not exist' the restore callback gets a non-nil state, which switches sparse writing off — an unreadable existing target was treated as missing and kept its old bytes in the zero runs (genuine defect, demonstrated, fixed); (link-target-only-when-restored) a name enters the hard-link index only inside the callback of withOverwriteCheck, i.e. when it is really restored — with --overwrite never/if-newer the other names were linked to an existing file that had been left untouched (genuine defect, demonstrated, fixed). Not decided: equality of content and size after restore (runtime values).",
 		Assumptions: commonAssumptions,
 		Technique:   "static analysis: CFG edge cuts + specialised path evaluation per overwrite mode (go/ssa)",
 		Run: func(c *eng.Ctx) {
@@ -73,8 +73,17 @@ func init() {
 			ruleSparseOff(c)
 			ruleOverwriteModes(c)
 			ruleReuseOnlyIfFileSurvives(c)
+			ruleVerifyReadsWholeBlob(c)
+			ruleExaminedOrNothingReused(c)
+			ruleLinkTargetOnlyWhenRestored(c)
 		},
 		Controls: []Control{
+			{Name: "unexaminable-target-treated-as-missing", File: "internal/restorer/restorer.go",
+				Old: "		if err != nil && !errors.Is(err, os.ErrNotExist) {\n			// the target exists but cannot be examined.", New: "		if err != nil && errors.Is(err, os.ErrNotExist) {\n			// the target exists but cannot be examined.", Rule: "examined-or-nothing-reused"},
+			{Name: "link-target-registered-before-overwrite-check", File: "internal/restorer/restorer.go",
+				Old: "			buf, err = res.withOverwriteCheck(ctx, node, target, location, false, buf, func(updateMetadataOnly bool, matches *fileState) error {\n				if node.Links > 1 {", New: "			if node.Links > 1 {\n				idx.Add(node.Inode, node.DeviceID, location)\n			}\n			buf, err = res.withOverwriteCheck(ctx, node, target, location, false, buf, func(updateMetadataOnly bool, matches *fileState) error {\n				if node.Links > 99 {", Rule: "link-target-only-when-restored"},
+			{Name: "short-read-treated-as-complete", File: "internal/restorer/restorer.go",
+				Old: "		if err == io.EOF && !failFast {\n			sizeMatches = false\n			break\n		}\n		if err != nil {\n			return nil, buf, err\n		}\n		matches[i]", New: "		if err != nil && err != io.EOF {\n			return nil, buf, err\n		}\n		matches[i]", Rule: "verify-reads-whole-blob"},
 			{Name: "matches-kept-for-hard-linked-target", File: "internal/restorer/restorer.go",
 				Old: "	if !failFast && state.NeedsRestore() && fs.ExtendedStat(fi).Links > 1 {", New: "	if !failFast && state.NeedsRestore() && fs.ExtendedStat(fi).Links > 1 && trustMtime {", Rule: "reuse-only-if-file-survives"},
 			{Name: "reuse-hardlinked-file", File: "internal/restorer/fileswriter.go",
@@ -106,11 +115,13 @@ func init() {
 	})
 	register(&Property{
 		ID: "C21",
-		Explanation: "Decides the 'if' direction structurally: VerifyFiles calls verifyFile with failFast=true and trustMtime=false; with these arguments fixed (specialised path evaluation) verifyFile returns a nil error only on the node.Size == fi.Size() edge and, from every ReadAt, only on the read's success edge and the Equal(restic.Hash(buf)) edge — also before reading the next blob — and the hashed buffer is the one ReadAt filled; the error goes to the restorer's error handler, which counts it, and runRestore exits 0 after --verify only if VerifyFiles returned nil and the error counter is zero. Not decided: which files are selected for verification, and the converse direction (no false reports).",
+		Explanation: "Decides the 'if' direction structurally: VerifyFiles calls verifyFile with failFast=true and trustMtime=false; with these arguments fixed (specialised path evaluation) verifyFile returns a nil error only on the node.Size == fi.Size() edge and, from every ReadAt, only on the read's success edge and the Equal(restic.Hash(buf)) edge — also before reading the next blob — and the hashed buffer is the one ReadAt filled; no nil error is returned before the loop over node.Content was entered (added after a seeded change that returned early for hard-linked files), the hash is taken only of a completely read buffer (verify-reads-whole-blob); --verify checks the name registered in the hard-link index on behalf of all names of a file, so a name is registered only when it is really restored (link-target-only-when-restored; genuine defect, fixed: the other names were linked to a skipped existing file and --verify did not look at them); the error goes to the restorer's error handler, which counts it, and runRestore exits 0 after --verify only if VerifyFiles returned nil and the error counter is zero. Not decided: which files are selected for verification, and the converse direction (no false reports).",
 		Assumptions: commonAssumptions,
 		Technique:   "static analysis: specialised (constant-argument) path-sensitive reachability on verifyFile + error flow to the exit status (go/ssa)",
-		Run:         func(c *eng.Ctx) { ruleVerifyStrict(c) },
+		Run:         func(c *eng.Ctx) { ruleVerifyStrict(c); ruleVerifyReadsWholeBlob(c); ruleLinkTargetOnlyWhenRestored(c) },
 		Controls: []Control{
+			{Name: "verify-skips-hard-linked-files", File: "internal/restorer/restorer.go",
+				Old: "	matches := make([]bool, len(node.Content))\n	var offset int64", New: "	if fs.ExtendedStat(fi).Links > 1 {\n		return nil, buf, nil\n	}\n	matches := make([]bool, len(node.Content))\n	var offset int64", Rule: "verify-strict"},
 			{Name: "verify-ignores-size", File: "internal/restorer/restorer.go",
 				Old: "		if failFast {\n			return nil, buf, errors.Errorf(\"Invalid file size for %s: expected %d, got %d\",", New: "		if failFast && trustMtime {\n			return nil, buf, errors.Errorf(\"Invalid file size for %s: expected %d, got %d\",", Rule: "verify-strict"},
 			{Name: "verify-tolerates-mismatch", File: "internal/restorer/restorer.go",
